@@ -159,6 +159,15 @@ func (o *Optimizer) findAggrFunc(expr Expression) bool {
 		}
 	case *FunctionCallExpr:
 		return IsAggrFuncExpr(expr)
+	case *NotExpr:
+		return o.findAggrFunc(e.Right)
+	case *ListExpr:
+		// (the items of an IN list, the bounds of a BETWEEN)
+		for _, item := range e.List {
+			if o.findAggrFunc(item) {
+				return true
+			}
+		}
 	}
 	return false
 }
